@@ -195,6 +195,35 @@ class World:
                                                  []).append(str(e))
         finally:
             interp.frames.pop()
+        ext = [b.name for b in bases if isinstance(b, ExtRef)]
+        if any(n in ('enum.Enum', 'enum.IntEnum', 'enum.Flag',
+                     'enum.IntFlag', 'enum.StrEnum') for n in ext):
+            if any(n != 'enum.Enum' for n in ext if n.startswith('enum.')):
+                attrs['__unmodelled__'] = K('enum with mixed-in value type')
+            members = []
+            for st in node.body:
+                if isinstance(st, ast.Assign) and len(st.targets) == 1 and \
+                        isinstance(st.targets[0], ast.Name) and \
+                        not st.targets[0].id.startswith('_'):
+                    nm = st.targets[0].id
+                    val = attrs.get(nm)
+                    if isinstance(val, (FuncRef, PropertyV, StaticV,
+                                        ClassMethodV)) or val is None:
+                        continue
+                    if isinstance(st.value, ast.Call) and ast.unparse(
+                            st.value.func).endswith('auto'):
+                        val = K(len(members) + 1)
+                    dup = [m for m in members
+                           if m.fields['value'] == val]
+                    if dup:
+                        attrs[nm] = dup[0]      # alias
+                        continue
+                    m = Obj(cls, {'value': val, 'name': K(nm),
+                                  '_value_': val, '_name_': K(nm)},
+                            label='%s.%s' % (node.name, nm))
+                    members.append(m)
+                    attrs[nm] = m
+            attrs['__enum_members__'] = ListV(members)
         for k, v in list(attrs.items()):
             if isinstance(v, FuncRef) and v.node in node.body:
                 v.cls = cls
@@ -206,6 +235,76 @@ class World:
                 v.fget.cls = cls
                 v.fget.closure = fr.env
         return cls
+
+    def make_dataclass(self, interp, cls, opts, fr):
+        """@dataclass: __init__ (and __eq__) synthesised from the annotated
+        class attributes, in order, with their defaults."""
+        fields = []
+        for c in reversed(cls.mro()):
+            for st in c.node.body:
+                if isinstance(st, ast.AnnAssign) and isinstance(
+                        st.target, ast.Name):
+                    ann = ast.unparse(st.annotation)
+                    if 'ClassVar' in ann or 'InitVar' in ann:
+                        continue
+                    if isinstance(st.value, ast.Call) and ast.unparse(
+                            st.value.func).endswith('field'):
+                        cls.attrs['__unmodelled__'] = K(
+                            'dataclass field() specification')
+                    fields = [f for f in fields if f[0] != st.target.id]
+                    fields.append((st.target.id, st.value))
+        params = []
+        seen_default = False
+        for name, default in fields:
+            if default is None and seen_default:
+                cls.attrs['__unmodelled__'] = K('dataclass field order')
+            seen_default = seen_default or default is not None
+            params.append(name if default is None else '%s=%s' % (
+                name, ast.unparse(default)))
+        src = 'def __init__(self%s):\n' % ''.join(', ' + p for p in params)
+        src += ''.join('    self.%s = %s\n' % (n, n) for n, _d in fields) \
+            or '    pass\n'
+        if '__post_init__' in cls.attrs:
+            src += '    self.__post_init__()\n'
+        names = [n for n, _d in fields]
+        if not (isinstance(opts.get('eq'), K) and opts['eq'].v is False):
+            tup = '(%s)' % ''.join('%%s.%s, ' % n for n in names)
+            src += ('def __eq__(self, other):\n'
+                    '    if other.__class__ is not self.__class__:\n'
+                    '        return NotImplemented\n'
+                    '    return %s == %s\n') % (
+                        tup % tuple(['self'] * len(names)),
+                        tup % tuple(['other'] * len(names)))
+        tree = ast.parse(src)
+        for node_ in ast.walk(tree):
+            for child in ast.iter_child_nodes(node_):
+                child._parent = node_
+        module = fr.func.module if fr.func else None
+        for node in tree.body:
+            if node.name in cls.attrs and node.name != '__eq__':
+                continue
+            f = FuncRef(node, module, closure=fr.env, name=node.name)
+            f.cls = cls
+            cls.attrs[node.name] = f
+        for o in ('order', 'slots', 'kw_only', 'unsafe_hash'):
+            if isinstance(opts.get(o), K) and opts[o].v:
+                cls.attrs['__unmodelled__'] = K('dataclass(%s=True)' % o)
+        if isinstance(opts.get('frozen'), K) and opts['frozen'].v:
+            cls.attrs['__frozen__'] = K(True)
+        return cls
+
+    def enum_lookup(self, interp, cls, args):
+        """EnumClass(value) -> the member with that value."""
+        members, _o = cls.lookup('__enum_members__')
+        if len(args) != 1:
+            raise Inexact('enum call with %d arguments' % len(args))
+        from . import models
+        for m in members.items:
+            if interp.truth(models.compare(interp, ast.Eq(),
+                                           m.fields['value'], args[0])):
+                return m
+        from .absint import AbsRaise
+        raise AbsRaise(T('exc', 'ValueError', 'not a valid member'))
 
     # -- convenience for rules ---------------------------------------------------
     def get(self, modname, name):
